@@ -241,6 +241,41 @@ pub fn drive_builder(a: &Args) {
         }
         out.emit(builder_record(&calls, ""));
     }
+    // many states (6..33): a cycle on the low characters, a self loop on one letter, the default jumps; a few
+    // unreachable states; calls in a shuffled order
+    for &n in &[6u32, 9, 16, 17, 33] {
+        for variant in 0..3u32 {
+            let extra = variant; // unreachable states n..n+extra
+            let mut calls = vec![Call::New(0)];
+            let mut body: Vec<Call> = vec![];
+            for i in 0..n {
+                body.push(Call::Add(i, 0, 0x60, (i + 1) % n));
+                body.push(Call::Add(i, 0x61, 0x61, i));
+                if variant == 1 && i % 4 == 0 {
+                    body.push(Call::Add(i, 0x62, MAX_CHAR, (i * 2) % n));
+                } else {
+                    body.push(Call::Def(i, (i * 2) % n));
+                }
+                if i % 3 == 0 {
+                    body.push(Call::Fin(i));
+                }
+            }
+            for x in 0..extra {
+                let s = n + x;
+                body.push(Call::Add(s, 0, 0x2F, (s + 1 - n) % extra + n));
+                body.push(Call::Def(s, 0));
+                if x == 0 {
+                    body.push(Call::Fin(s));
+                }
+            }
+            for k in (1..body.len()).rev() {
+                let j = rng.below(k as u64 + 1) as usize;
+                body.swap(k, j);
+            }
+            calls.extend(body);
+            out.emit(builder_record(&calls, ""));
+        }
+    }
     // tilings: k = 3..6 intervals covering the whole alphabet, at least 3 distinct targets (no majority), added in
     // EVERY order for k = 4 and in sampled orders otherwise; without a default, with a default declared first / last
     for k in 3..=6usize {
